@@ -271,6 +271,31 @@ def check_large_frame(case, ctx):
         compare_models(exp, _models(res.value), "large-frame/ref->impl")
 
 
+def colliding_cases(tier):
+    """Two generations of one type name whose identifiers (name + 32-bit hash over the concatenated field names and
+    types) coincide: 'no'+'wstring' == 'now'+'string'.  The stream must say which definition each record uses."""
+    import datetime as _d
+    import itertools
+
+    g = _d.datetime(2020, 1, 1, tzinfo=_d.timezone.utc)
+    pairs = [
+        (("t/coll", (("wstring", "no"), ("varint", "id"))), ("t/coll", (("string", "now"), ("varint", "id")))),
+        (("t/coll2", (("wstring", "x"), ("stringlist", "b"))), ("t/coll2", (("string", "xw"), ("stringlist", "b")))),
+    ]
+    cases = []
+    for A, B in pairs:
+        for order in itertools.product("AB", repeat=3):
+            if len(set(order)) < 2:
+                continue
+            seq = []
+            for i, o in enumerate(order):
+                d = A if o == "A" else B
+                vals = ["v%d" % i, (i if d[1][1][0] == "varint" else (["x%d" % i] if d[1][1][0] == "stringlist" else "w%d" % i))]
+                seq.append(gen.M("plain", {"desc": d, "vals": vals, "src": None, "cls": None, "gen": g}))
+            cases.append({"seq": seq})
+    return cases
+
+
 def parts(tier):
     return [
         Part("impl-to-ref", check_impl_to_ref, strategy=st.fixed_dictionaries({"seq": gen.sequence_spec()}),
@@ -278,6 +303,7 @@ def parts(tier):
         Part("impl-to-ref-focused", check_impl_to_ref,
              strategy=C01.focused_strategy().map(lambda c: {"seq": c["seq"]}), examples=(150, 3000)),
         Part("ref-to-impl", check_ref_to_impl, strategy=ref_case(), examples=(200, 3000)),
+        Part("colliding-descriptors", check_impl_to_ref, cases=colliding_cases, exhaustive=True),
         Part("golden", check_golden, cases=golden_cases, exhaustive=True),
         Part("large-frames", check_large_frame, cases=large_cases, exhaustive=True),
     ]
